@@ -557,6 +557,13 @@ class _FormatToFString(ast.NodeTransformer):
         return js
 
 
+def norm_src(f: ast.AST) -> str:
+    try:
+        return ast.unparse(f).replace(' ', '')
+    except Exception:
+        return ''
+
+
 def norm_name(f: ast.AST) -> str:
     if isinstance(f, ast.Name):
         return f.id
@@ -648,12 +655,25 @@ class Desugar(ast.NodeTransformer):
         while j < len(body):
             st = body[j]
             j += 1
-            if not (isinstance(st, ast.Assign) and len(st.targets) == 1 and isinstance(st.targets[0], ast.Name) and isinstance(st.value, ast.List)
-                    and 1 <= len(st.value.elts) <= 6 and all(_pure_cell(e) and not isinstance(e, ast.Lambda) for e in st.value.elts)
-                    and self.stores.get(st.targets[0].id, 0) == 1):
+            if not (isinstance(st, ast.Assign) and len(st.targets) == 1 and isinstance(st.targets[0], ast.Name) and self.stores.get(st.targets[0].id, 0) == 1):
+                continue
+
+            def cells(d):
+                if isinstance(d, (ast.List, ast.Tuple)) and len(d.elts) <= 6 and all(_pure_cell(e) and not isinstance(e, ast.Lambda) for e in d.elts):
+                    return list(d.elts)
+                return None
+            elems = None
+            if cells(st.value) is not None and len(st.value.elts) >= 1:
+                elems = [(None, e) for e in cells(st.value)]
+            elif isinstance(st.value, ast.IfExp) and _pure_cell(st.value.test) and cells(st.value.body) is not None and cells(st.value.orelse) is not None:
+                # [a, b] if C else [a]: the common prefix always, the rest under C (or under not C)
+                a_, b_ = cells(st.value.body), cells(st.value.orelse)
+                short, long_, cond = (b_, a_, st.value.test) if len(a_) >= len(b_) else (a_, b_, ast.UnaryOp(op=ast.Not(), operand=st.value.test))
+                if short and [ast.dump(x) for x in long_[:len(short)]] == [ast.dump(x) for x in short]:
+                    elems = [(None, e) for e in short] + [(cond, e) for e in long_[len(short):]]
+            if not elems:
                 continue
             names = {st.targets[0].id}
-            elems = [(None, e) for e in st.value.elts]
             consumed = [j - 1]
             loops: List[int] = []
             accounted = 0
@@ -748,6 +768,22 @@ class Desugar(ast.NodeTransformer):
                     del body[j]
                     continue
             j += 1
+        # D12: M.update(dict.fromkeys(KEYS, V))   ->   for k in KEYS: M[k] = V
+        import copy
+        body = list(body)
+        for bi, b0 in enumerate(body):
+            if isinstance(b0, ast.Expr) and isinstance(b0.value, ast.Call) and isinstance(b0.value.func, ast.Attribute) and b0.value.func.attr == 'update' \
+                    and len(b0.value.args) == 1 and not b0.value.keywords and isinstance(b0.value.args[0], ast.Call) and norm_src(b0.value.args[0].func) == 'dict.fromkeys' \
+                    and len(b0.value.args[0].args) == 2 and _pure_cell(b0.value.args[0].args[1]):
+                ks, v = b0.value.args[0].args
+                kv = '_k_upd'
+                store = ast.Assign(targets=[ast.Subscript(value=b0.value.func.value, slice=ast.Name(id=kv, ctx=ast.Load()), ctx=ast.Store())], value=v)
+                loop = ast.For(target=ast.Name(id=kv, ctx=ast.Store()), iter=ks, body=[store], orelse=[])
+                for x in ast.walk(loop):
+                    if not hasattr(x, 'lineno'):
+                        ast.copy_location(x, b0)
+                ast.copy_location(loop, b0)
+                body[bi] = loop
         body = self._d8(body)
         local_tables = dict(local_tables or {})
         out: List[ast.stmt] = []
@@ -782,6 +818,56 @@ class Desugar(ast.NodeTransformer):
                         out.append(nb)
                 i += 1
                 continue
+            # D11: D = {K: V for x in IT [if C]} ; T = D.get(Q[, F])     (D used only there)
+            #        ->   [q = Q] ; T = F ; for x in IT: if C and K == q: T = V          (an index built to be asked once is a search; the last match wins)
+            if isinstance(st, ast.Assign) and len(st.targets) == 1 and isinstance(st.value, ast.Call) and isinstance(st.value.func, ast.Attribute) \
+                    and st.value.func.attr == 'get' and isinstance(st.value.func.value, ast.Name) and 1 <= len(st.value.args) <= 2 and not st.value.keywords \
+                    and getattr(self, 'loads', None) is not None and self.loads.get(st.value.func.value.id, 0) == 1 and self.stores.get(st.value.func.value.id, 0) == 1 \
+                    and isinstance(st.targets[0], (ast.Name, ast.Attribute)):
+                dname = st.value.func.value.id
+                ddef = [(k_, o) for k_, o in enumerate(out) if isinstance(o, ast.Assign) and len(o.targets) == 1 and isinstance(o.targets[0], ast.Name)
+                        and o.targets[0].id == dname and isinstance(o.value, ast.DictComp) and len(o.value.generators) == 1]
+                if len(ddef) == 1:
+                    k_, o = ddef[0]
+                    dc = copy.deepcopy(o.value)
+                    g = dc.generators[0]
+                    # the comprehension's own variables live in their own scope: rename them so they cannot collide with the function's names
+                    ren = {x.id: f'_{x.id}_{dname}' for x in ast.walk(g.target) if isinstance(x, ast.Name)}
+
+                    class _R(ast.NodeTransformer):
+                        def visit_Name(self_, n):
+                            if n.id in ren:
+                                return ast.copy_location(ast.Name(id=ren[n.id], ctx=n.ctx), n)
+                            return n
+                    dc.key, dc.value = _R().visit(dc.key), _R().visit(dc.value)
+                    g.target = _R().visit(g.target)
+                    g.ifs = [_R().visit(c) for c in g.ifs]
+                    q = st.value.args[0]
+                    dflt = st.value.args[1] if len(st.value.args) == 2 else ast.Constant(value=None)
+                    pre: List[ast.stmt] = []
+                    if not isinstance(q, (ast.Name, ast.Constant)):
+                        qn = f'_q_{dname}'
+                        pre.append(ast.Assign(targets=[ast.Name(id=qn, ctx=ast.Store())], value=q))
+                        dflt = _Subst({}).visit(copy.deepcopy(dflt))
+                        if ast.dump(dflt) == ast.dump(q):
+                            dflt = ast.Name(id=qn, ctx=ast.Load())
+                        q = ast.Name(id=qn, ctx=ast.Load())
+                    pre.append(ast.Assign(targets=[copy.deepcopy(st.targets[0])], value=dflt))
+                    test: ast.AST = ast.Compare(left=dc.key, ops=[ast.Eq()], comparators=[copy.deepcopy(q)])
+                    if g.ifs:
+                        test = ast.BoolOp(op=ast.And(), values=list(g.ifs) + [test])
+                    hit = ast.Assign(targets=[copy.deepcopy(st.targets[0])], value=dc.value)
+                    loop = ast.For(target=g.target, iter=g.iter, body=[ast.If(test=test, body=[hit], orelse=[])], orelse=[])
+                    for nd in pre + [loop]:
+                        for x in ast.walk(nd):
+                            if not hasattr(x, 'lineno'):
+                                ast.copy_location(x, st)
+                        ast.copy_location(nd, st)
+                    del out[k_]
+                    out.extend(pre)
+                    out.append(loop)
+                    i += 1
+                    continue
             # D10a: V = Counter(E for x in IT if C)   ->   V = {} ; for x in IT: if C: V[E] = V.get(E, 0) + 1
             if isinstance(st, ast.Assign) and len(st.targets) == 1 and isinstance(st.targets[0], ast.Name) and isinstance(st.value, ast.Call) \
                     and norm_name(st.value.func) == 'Counter' and len(st.value.args) == 1 and not st.value.keywords \
